@@ -694,7 +694,7 @@ CELLS.append(Cell("C11/shell", with_common(shell_params()), lambda case, ctx: ru
                   "one block per face, shared offset points, right-handed"))
 for _kind in xs.DISK_SKETCHES + xs.SPLINE_DISKS + xs.SPLINE_RINGS + ["Grid"]:
     CELLS.append(Cell(f"C11/sketch/{_kind}", sketch_shape_cases(_kind),
-                      lambda case, ctx: run_spec(case, ctx, build_sketch_shape), 12, 400,
+                      lambda case, ctx: run_spec(case, ctx, build_sketch_shape), 30, 600,
                       f"Extruded / Revolved / Lofted(+mid) shape on {_kind}: counts from the sketch topology, Jacobians, "
                       "arcs, shape.chop(0|1|2) suffice"))
 for _how in xs.STACKS:
